@@ -1,6 +1,6 @@
 from props import cfg
 
-CFG = cfg('C16', extract='Ex_C16', driver='c16',
+CFG = cfg('C16', refine=['Refine_policy'], extract='Ex_C16', driver='c16',
           rule='real keys assembled packet by packet from RSA-1024 material (every component can sign and encrypt, so selection depends on flags '
                'alone): flag set from a family (quick: {}, Sign, EncC|EncS, Certify|Auth; thorough: 8 sets incl. "no KeyFlags subpacket") on the '
                'primary user id and on each of 0..2 subkeys x 7 operations (sign certify revoke revoker bind encrypt decrypt) x enforcement on/off x '
